@@ -1,6 +1,7 @@
 /-
   The loop invariant of `bfs_equal_size_partitions` (C20): the part index stays in range, the search for an
-  unvisited node succeeds while fewer than n nodes are placed, every placed index is a node position.
+  unvisited node succeeds while fewer than n nodes are placed, every placed index is a node position, and every
+  queued index is a node position (so `visited[current]` and `successors_vec[current]` are in range).
 -/
 import GraphrsModel.Lemmas.NoPanic
 import GraphrsModel.Model.Components
@@ -24,31 +25,37 @@ theorem count_set_true {l : List Bool} {i : Nat} (h : l[i]? = some false) :
     rw [List.getElem?_eq_getElem hlt] at h; exact Option.some.inj h
   rw [List.count_set hlt, hi]; simp
 
-theorem eqInner_inv (s : Store) (n k M : Nat) : ∀ (fuel : Nat) (parts : List (List Nat)) (visited : List Bool)
+theorem eqInner_inv (s : Store) (n k M : Nat) (hsl : s.succVec.length = n)
+    (hrow : ∀ (i : Nat) (row : List Adj), s.succVec[i]? = some row → ∀ a ∈ row, a.1 < n) :
+    ∀ (fuel : Nat) (parts : List (List Nat)) (visited : List Bool)
     (count : Nat) (queue : List Nat) (part : Nat),
-    EqInv n k M parts visited count part → (parts[part]?.getD []).length < M →
+    EqInv n k M parts visited count part → (parts[part]?.getD []).length < M → (∀ q ∈ queue, q < n) →
     ∃ st', eqInner s M fuel ⟨parts, visited, count, queue, part⟩ = some st' ∧
-      EqInv n k M st'.parts st'.visited st'.count st'.part ∧ (st'.parts[st'.part]?.getD []).length ≤ M := by
+      EqInv n k M st'.parts st'.visited st'.count st'.part ∧ (st'.parts[st'.part]?.getD []).length ≤ M ∧
+      (∀ q ∈ st'.queue, q < n) := by
   intro fuel
   induction fuel with
   | zero =>
-    intro parts visited count queue part h hlt
-    exact ⟨_, rfl, h, Nat.le_of_lt hlt⟩
+    intro parts visited count queue part h hlt hq
+    exact ⟨_, rfl, h, Nat.le_of_lt hlt, hq⟩
   | succ fuel ih =>
-    intro parts visited count queue part h hlt
+    intro parts visited count queue part h hlt hq
     cases queue with
-    | nil => exact ⟨_, rfl, h, Nat.le_of_lt hlt⟩
+    | nil => exact ⟨_, rfl, h, Nat.le_of_lt hlt, hq⟩
     | cons cur rest =>
+      have hcur : cur < n := hq cur (by simp)
+      have hrest : ∀ q ∈ rest, q < n := fun q hm => hq q (List.mem_cons_of_mem _ hm)
+      have hcv : cur < visited.length := by rw [h.vlen]; exact hcur
+      have hvget : visited[cur]? = some visited[cur] := List.getElem?_eq_getElem hcv
       simp only [eqInner]
-      by_cases hv : visited[cur]?.getD true = true
-      · rw [if_pos hv]
-        exact ih parts visited count rest part h hlt
-      · rw [if_neg hv]
-        have hvf : visited[cur]? = some false := by
-          cases hc : visited[cur]? with
-          | none => simp [hc] at hv
-          | some b => cases b <;> simp_all
-        have hcur : cur < n := by rw [← h.vlen]; exact getElem?_lt hvf
+      rw [hvget]
+      cases hb : visited[cur] with
+      | true =>
+        simp only
+        exact ih parts visited count rest part h hlt hrest
+      | false =>
+        simp only
+        have hvf : visited[cur]? = some false := by rw [hvget, hb]
         have hpl : part < parts.length := by rw [h.plen]; exact h.part_lt
         have hp : parts[part]? = some parts[part] := List.getElem?_eq_getElem hpl
         rw [hp] at hlt ⊢
@@ -75,13 +82,22 @@ theorem eqInner_inv (s : Store) (n k M : Nat) : ∀ (fuel : Nat) (parts : List (
               · simp at hi; subst hi; exact hcur
         by_cases hfull : ((parts[part] ++ [cur]).length == M) = true
         · rw [if_pos hfull]
-          refine ⟨_, rfl, h', ?_⟩
+          refine ⟨_, rfl, h', ?_, hrest⟩
           simp only [hget, Option.getD_some]
           simp at hfull ⊢; omega
         · rw [if_neg hfull]
+          have hcs : cur < s.succVec.length := by rw [hsl]; exact hcur
+          have hsget : s.succVec[cur]? = some s.succVec[cur] := List.getElem?_eq_getElem hcs
+          rw [hsget]
+          simp only
           apply ih _ _ _ _ _ h'
-          simp only [hget, Option.getD_some]
-          simp at hfull ⊢; omega
+          · simp only [hget, Option.getD_some]
+            simp at hfull ⊢; omega
+          · intro q hqm
+            rcases List.mem_append.mp hqm with hqm | hqm
+            · exact hrest q hqm
+            · obtain ⟨a, ha, rfl⟩ := List.mem_map.mp hqm
+              exact hrow cur _ hsget a ha
 
 theorem count_true_eq_length {l : List Bool} (h : ∀ i, i < l.length → l[i]?.getD true = true) :
     l.count true = l.length := by
@@ -92,18 +108,19 @@ theorem count_true_eq_length {l : List Bool} (h : ∀ i, i < l.length → l[i]?.
   rw [hi] at this
   exact this.symm
 
-theorem eqOuter_inv (s : Store) (n k M : Nat) (hM : 0 < M) (hnk : n < k * M) :
+theorem eqOuter_inv (s : Store) (n k M : Nat) (hM : 0 < M) (hnk : n < k * M) (hsl : s.succVec.length = n)
+    (hrow : ∀ (i : Nat) (row : List Adj), s.succVec[i]? = some row → ∀ a ∈ row, a.1 < n) :
     ∀ (fuel : Nat) (parts : List (List Nat)) (visited : List Bool) (count : Nat) (queue : List Nat) (part : Nat),
-    EqInv n k M parts visited count part → (parts[part]?.getD []).length < M →
+    EqInv n k M parts visited count part → (parts[part]?.getD []).length < M → (∀ q ∈ queue, q < n) →
     ∃ st', eqOuter s n M fuel ⟨parts, visited, count, queue, part⟩ = some st' ∧
       ∀ p ∈ st'.parts, ∀ i ∈ p, i < n := by
   intro fuel
   induction fuel with
   | zero =>
-    intro parts visited count queue part h hlt
+    intro parts visited count queue part h hlt hq
     exact ⟨_, rfl, h.bound⟩
   | succ fuel ih =>
-    intro parts visited count queue part h hlt
+    intro parts visited count queue part h hlt hq
     simp only [eqOuter]
     by_cases hc : count ≥ n
     · rw [if_pos hc]; exact ⟨_, rfl, h.bound⟩
@@ -121,8 +138,13 @@ theorem eqOuter_inv (s : Store) (n k M : Nat) (hM : 0 < M) (hnk : n < k * M) :
         omega
       | some node =>
         simp only
-        obtain ⟨st', hst', h', hle⟩ := eqInner_inv s n k M ((queue ++ [node]).length + s.adjTotal + 2)
-          parts visited count (queue ++ [node]) part h hlt
+        have hnode : node < n := List.mem_range.mp (List.mem_of_find?_eq_some hf)
+        obtain ⟨st', hst', h', hle, hq'⟩ := eqInner_inv s n k M hsl hrow ((queue ++ [node]).length + s.adjTotal + 2)
+          parts visited count (queue ++ [node]) part h hlt (by
+            intro q hqm
+            rcases List.mem_append.mp hqm with hqm | hqm
+            · exact hq q hqm
+            · simp at hqm; subst hqm; exact hnode)
         rw [hst']
         simp only
         have hpl : st'.part < st'.parts.length := by rw [h'.plen]; exact h'.part_lt
@@ -146,10 +168,12 @@ theorem eqOuter_inv (s : Store) (n k M : Nat) (hM : 0 < M) (hnk : n < k * M) :
             · intro j hj hjk; exact h'.later j (by omega) hjk
             · rw [hnext, hcnt, hfull, Nat.add_mul]; simp
           · rw [hnext]; simpa using hM
+          · intro q hqm; cases hqm
         · have hne : (some st'.parts[st'.part].length == some M) = false := by simpa using hfull
           simp only [Option.map_some, hne, Bool.false_eq_true, if_false]
           apply ih _ _ _ _ _ h'
-          rw [hp]; simp only [Option.getD_some]; omega
+          · rw [hp]; simp only [Option.getD_some]; omega
+          · exact hq'
 
 theorem eqInv_init (n k M : Nat) (hk : 0 < k) :
     EqInv n k M (List.replicate k []) (List.replicate n false) 0 0 := by
@@ -160,14 +184,14 @@ theorem eqInv_init (n k M : Nat) (hk : 0 < k) :
   · intro p hp i hi
     rw [List.eq_of_mem_replicate hp] at hi; cases hi
 
-theorem bfsEqualSizePartitions_noPanic (s : Store) (hn : NodesInv s) (k : Nat) (hk : 0 < k) :
+theorem bfsEqualSizePartitions_noPanic (s : Store) (hn : NodesInv s) (hvec : s.vecOk = true) (k : Nat) (hk : 0 < k) :
     (s.bfsEqualSizePartitions k).isPanic = false := by
   unfold bfsEqualSizePartitions
   rw [if_neg (by simp; omega)]
   simp only
   obtain ⟨st', hst', hb⟩ := eqOuter_inv s s.numberOfNodes k (s.numberOfNodes / k + 1) (Nat.succ_pos _)
-    (Nat.lt_mul_div_succ _ hk) (s.numberOfNodes + 1) _ _ _ [] _ (eqInv_init s.numberOfNodes k _ hk)
-    (by simp [hk])
+    (Nat.lt_mul_div_succ _ hk) hn.succ_len (vec_lt hvec).1 (s.numberOfNodes + 1) _ _ _ [] _
+    (eqInv_init s.numberOfNodes k _ hk) (by simp [hk]) (by intro q hq; cases hq)
   rw [hst']
   simp only
   obtain ⟨l, hl⟩ := Outcome.foldl_ok st'.parts (fun p => ∀ i ∈ p, i < s.nodesVec.length)
